@@ -382,3 +382,95 @@ def r04h(ctx):
 def _ordinal(fn, call):
     xs = sorted((x for x in iter_body_nodes(fn) if isinstance(x, ast.Call)), key=lambda x: (x.lineno, x.col_offset))
     return next(i for i, x in enumerate(xs) if x is call)
+
+
+# ---------------------------------------------------------------------------------------------
+# R04i
+# ---------------------------------------------------------------------------------------------
+
+
+def _def_chain(defs, name, node, seen=None, depth=0):
+    seen = seen if seen is not None else set()
+    out = []
+    if depth > 6:
+        return out
+    for d in defs.reaching(name, node):
+        if d.value is None or id(d.value) in seen:
+            continue
+        seen.add(id(d.value))
+        out.append(d.value)
+        for x in ast.walk(d.value):
+            if isinstance(x, ast.Name) and isinstance(x.ctx, ast.Load):
+                out += _def_chain(defs, x.id, d.value, seen, depth + 1)
+    return out
+
+
+def _restricts_to_columns_of(node, bases, subjects):
+    """does ``node`` contain `[v for v in B.columns if v in <subject>]` or `<subject> in B.columns` for a B in bases, where
+    <subject> is the requested-columns value (one of the locals it flows through, or the helper call itself)"""
+
+    def about(e):
+        return "determine_column_projection(" in ast.unparse(e) or any(isinstance(y, ast.Name) and y.id in subjects for y in ast.walk(e))
+
+    for x in ast.walk(node):
+        if isinstance(x, (ast.ListComp, ast.SetComp, ast.GeneratorExp)):
+            g = x.generators[0]
+            it = ast.unparse(g.iter)
+            if any(it in (f"{b}.columns", f"list({b}.columns)") for b in bases) and any(about(i) for i in g.ifs):
+                return True
+        if isinstance(x, ast.Compare) and isinstance(x.ops[0], (ast.In, ast.NotIn)) and about(x.left):
+            cmp_ = ast.unparse(x.comparators[0])
+            if any(cmp_ in (f"{b}.columns", f"set({b}.columns)", f"list({b}.columns)") for b in bases):
+                return True
+    return False
+
+
+@rule(
+    "R04i",
+    ["C04"],
+    """PRUNED INPUT ONLY ASKED FOR COLUMNS IT HAS: the answer of determine_column_projection is the union of what ALL registered
+    consumers read from this node - including consumers that add or relabel columns (assign, merge, rename, add_prefix) and were just
+    rewritten around it in the same pass, whose labels do not exist in the node's input. Every `X[cols]` built from that answer must
+    first be restricted to X's own columns (`[c for c in X.columns if c in cols]`, or a `cols in X.columns` test for a single label);
+    otherwise df.set_index('a').assign(z=1)[['z', 'x']] asks the source for 'z' and the optimizer raises KeyError.""",
+)
+def r04i(ctx):
+    model = ctx.model
+    n = 0
+    for mod, cls, fn in model.all_functions():
+        if fn.name == "determine_column_projection" or "determine_column_projection(" not in ast.unparse(fn):
+            continue
+        defs = flow.Defs(fn)
+        fq = qual(cls, fn) if cls is not None else f"{mod.name.split('.', 1)[-1]}.{fn.name}"
+        k = 0
+        for node in ast.walk(fn):
+            if not (isinstance(node, ast.Subscript) and isinstance(node.ctx, ast.Load) and isinstance(node.slice, ast.Name)):
+                continue
+            p = flow.point_of(fn, node)
+            if p is None:
+                continue
+            chain = _def_chain(defs, node.slice.id, node)
+            if not any("determine_column_projection(" in ast.unparse(v) for v in chain):
+                continue
+            base = ast.unparse(node.value)
+            bases = {base}
+            if isinstance(node.value, ast.Name):
+                bases |= {ast.unparse(v) for v in _def_chain(defs, node.value.id, node)[:3]}
+            n += 1
+            k += 1
+            cid = f"{fq}:prune-input:{base}[{node.slice.id}]"
+            subjects = {node.slice.id}
+            for st in ast.walk(fn):
+                if isinstance(st, ast.Assign) and any(st.value is v for v in chain):
+                    subjects |= {t.id for t in st.targets if isinstance(t, ast.Name)}
+            where = list(chain) + [t for t, pol in flow.facts(p) if pol]
+            q = getattr(node, "_parent", None)
+            while q is not None and not isinstance(q, ast.stmt):
+                if isinstance(q, ast.IfExp):
+                    where.append(q.test)
+                q = getattr(q, "_parent", None)
+            if any(_restricts_to_columns_of(w, bases, subjects) for w in where):
+                ctx.ok(cid, mod.loc(node), f"`{node.slice.id}` is restricted to the columns of {base}")
+            else:
+                ctx.bad(cid, mod.loc(node), f"`{ast.unparse(node)}` selects the union of all consumers' requests from the input without restricting it to {base}.columns: a consumer that adds or relabels columns above this node (assign / merge / rename / add_prefix) makes the optimizer ask the input for labels it does not have (KeyError in an optimizable query)")
+    ctx.floor("input projections built from determine_column_projection", n, 18)
